@@ -9,8 +9,8 @@
     headers is well-formed ([wf_tree]) and that the client starts from a truthful tip with a cache of
     truthful headers ([good_client]; established by [SpvClient::new] on a validated header of the
     caller's own chain and an empty cache, and preserved by every poll). *)
-Require Import LdkV.Prim.U64 LdkV.Model.BlockSync LdkV.Model.BlockSyncSpec.
-Require Import LdkV.Proofs.C20Tree LdkV.Proofs.C20 LdkV.Proofs.C20Poll LdkV.Proofs.C20Wf LdkV.Proofs.C20Init LdkV.Proofs.C20Fan.
+Require Import LdkV.Prim.U64 LdkV.Model.BlockSync LdkV.Model.BlockSyncSpec LdkV.Model.ChainWalk.
+Require Import LdkV.Proofs.C20Tree LdkV.Proofs.C20 LdkV.Proofs.C20Poll LdkV.Proofs.C20Wf LdkV.Proofs.C20Init LdkV.Proofs.C20Fan LdkV.Proofs.C20Walk LdkV.Proofs.C20More.
 Open Scope Z_scope.
 Local Open Scope list_scope.
 
@@ -126,6 +126,92 @@ Theorem C20_fanout_each_leaf : forall sh log i,
   (i < nleaves sh)%nat -> leaf_log i (fan_trace sh log) = log.
 Proof. exact fanout_each_leaf. Qed.
 
+(** * The chain-difference walk as a pure function over the header DAG (Model/ChainWalk.v): parent
+    pointers, heights, chainwork; no source, no cache.  For ALL pairs of blocks of ANY well-formed DAG. *)
+
+(** The walk returns the LOWEST common ancestor; [C] is the new chain above it in ascending order,
+    [D] the old chain above it, tip first ([rev D] ascending). *)
+Theorem C20_walk_lowest_common_ancestor : forall T, wf_tree T -> forall new old ca D C,
+  chain_diff T new old = Some (ca, D, C) ->
+  path T ca new C /\ path T ca old (rev D) /\
+  (forall d, anc T d new -> anc T d old -> anc T d ca).
+Proof. exact chain_diff_sound. Qed.
+
+(** ... and it finds one whenever the two blocks have any common ancestor (fuel = sum of heights + 1). *)
+Theorem C20_walk_total : forall T, wf_tree T -> forall new old d,
+  anc T d new -> anc T d old -> chain_diff T new old <> None.
+Proof. exact chain_diff_total. Qed.
+
+(** Heights are strictly consecutive from the common ancestor on both segments, and the disconnected
+    list starts with the old tip. *)
+Theorem C20_walk_heights_consecutive : forall T, wf_tree T -> forall new old ca D C nda,
+  chain_diff T new old = Some (ca, D, C) -> T ca = Some nda ->
+  (forall i b, nth_error C i = Some b ->
+     exists ndb, T b = Some ndb /\ n_height ndb = n_height nda + Z.of_nat i + 1) /\
+  (forall i b, nth_error (rev D) i = Some b ->
+     exists ndb, T b = Some ndb /\ n_height ndb = n_height nda + Z.of_nat i + 1) /\
+  (D <> [] -> exists D', D = old :: D').
+Proof. exact walk_heights. Qed.
+
+(** Refinement to "the listener's view is a chain": a listener whose view is the old chain (the blocks
+    above any root at or below the fork point), after dropping [|D|] blocks from the top and appending
+    [C], has exactly the new chain as its view. *)
+Theorem C20_walk_view_refinement : forall T, wf_tree T -> forall new old ca D C root view,
+  chain_diff T new old = Some (ca, D, C) ->
+  path T root old view -> anc T root ca -> path T root new (apply_diff view D C).
+Proof. exact walk_view. Qed.
+
+(** The source-driven [find_diff] of Model/BlockSync.v (any source, cache hits, errors) refines the pure
+    walk: whenever it succeeds its fork point and connected list are exactly those of [chain_diff]. *)
+Theorem C20_find_diff_refines_walk : forall T, wf_tree T -> forall src c fuel cur prev n ca asc,
+  Forall (truthful T) c -> genuine T cur -> truthful T prev ->
+  (Z.to_nat (th T cur + th T prev) < fuel)%nat ->
+  fst (find_diff fuel T src c cur prev [] n) = DOk ca asc ->
+  exists D, chain_diff T (v_hash cur) (v_hash prev) = Some (v_hash ca, D, map v_hash asc).
+Proof. exact find_diff_refines_walk. Qed.
+
+(** [ChainPoller::poll_chain_tip], any source: [Better] iff STRICTLY more chainwork than the best known
+    tip (height plays no role; an equal-work tip is [Worse]); the comparison is pinned from poll.rs. *)
+Theorem C20_better_iff_more_work : forall T src bk n r n',
+  poll_chain_tip T src bk n = (Ok r, n') ->
+  match r with
+  | Common => True
+  | Better t => v_cwork bk < v_cwork t /\ v_hash t <> v_hash bk
+  | Worse t => v_cwork t <= v_cwork bk /\ v_hash t <> v_hash bk
+  end.
+Proof. exact poll_classification. Qed.
+
+(** Whatever the source does, after a poll the stored tip and every cached header satisfy the
+    validated-header linkage (height = parent's + 1, chainwork = parent's + own work: what
+    [check_builds_on] and fix c78dc41 enforce), and a [Better] tip that was acted upon has it too and
+    has strictly more chainwork than the old tip. *)
+Theorem C20_adopted_headers_linked : forall T src cl n r cl' log n',
+  wf_tree T -> good_client T cl ->
+  poll_best_tip T src cl n = (r, cl', log, n') ->
+  linked T (cl_tip cl') /\ Forall (linked T) (cl_cache cl') /\
+  forall t moved, r = Ok (Better t, moved) ->
+    v_cwork (cl_tip cl) < v_cwork t /\ (moved = true -> linked T t).
+Proof. exact adopted_linked. Qed.
+
+(** Composite listeners, list level: every notification is delivered to the leaves left to right, each
+    exactly once, before the next notification; so the per-leaf logs are [n] copies of the log. *)
+Theorem C20_fanout_in_order : forall sh log, fan_trace sh log = flat_map (in_order (nleaves sh)) log.
+Proof. exact fan_in_order. Qed.
+
+Theorem C20_fanout_all_leaves : forall sh log, leaf_logs sh log = repeat log (nleaves sh).
+Proof. exact leaf_logs_all. Qed.
+
+(** Start-up with N listeners at arbitrary (truthful) positions, on success: each listener's
+    notifications connect EVERY block from its own fork point - which lies on its old chain - up to the
+    one common tip, header-only notifications included ([conn_hashes] ignores the full/header-only flag). *)
+Theorem C20_init_connects_every_block : forall T src ls n c tip logs n',
+  wf_tree T -> honest_meta T src -> Forall (locator_ok T) ls ->
+  synchronize_listeners T src ls n = (Ok (c, tip), logs, n') ->
+  Forall2 (fun loc log =>
+             anc T (fork_of (l_hash loc) log) (l_hash loc) /\
+             path T (fork_of (l_hash loc) log) (v_hash tip) (conn_hashes log)) ls logs.
+Proof. exact init_connects_every_block. Qed.
+
 (** * Non-vacuity: a concrete universe with a fork, an equal-work tie and a more-work shorter fork *)
 Definition ex_nd p h b c := {| n_prev := p; n_height := h; n_bwork := b; n_cwork := c; n_pow := true; n_wit := true |}.
 Definition ex_list : list (Z * node) :=
@@ -175,3 +261,25 @@ Example C20_ex_init :
   snd (fst (synchronize_listeners ex_T src ls 0%nat))
   = [ [EDisc 2 1; EConn 5 2 true; EConn 6 3 true]; [EConn 2 1 true; EConn 5 2 true; EConn 6 3 true]; [] ].
 Proof. vm_compute. reflexivity. Qed.
+
+(** The pure walk on the same universe: from old tip 4 to new tip 6 the lowest common ancestor is 2,
+    4 and 3 are disconnected (tip first), 5 and 6 connected; a view [2;3;4] above root 1 becomes [2;5;6]. *)
+Example C20_ex_walk :
+  chain_diff ex_T 6 4 = Some (2, [4; 3], [5; 6]) /\ apply_diff [2; 3; 4] [4; 3] [5; 6] = [2; 5; 6] /\
+  chain_diff ex_T 7 7 = Some (7, [], []) /\ chain_diff ex_T 1 4 = Some (1, [4; 3; 2], []).
+Proof. vm_compute. repeat split; reflexivity. Qed.
+
+(** An equal-work tip (5 against the stored 3, both chainwork 6) is Worse. *)
+Example C20_ex_tie_is_worse :
+  poll_chain_tip ex_T (scripted ex_T 5 true true (fun _ => None)) (tv ex_T 3) 0%nat = (Ok (Worse (tv ex_T 5)), 2%nat).
+Proof. vm_compute. reflexivity. Qed.
+
+Example C20_ex_fan_order :
+  fan_trace (Pair Leaf (Pair Leaf Leaf)) [EDisc 2 1; EConn 5 2 false]
+  = [(0, EDisc 2 1); (1, EDisc 2 1); (2, EDisc 2 1); (0, EConn 5 2 false); (1, EConn 5 2 false); (2, EConn 5 2 false)]%nat.
+Proof. vm_compute. reflexivity. Qed.
+
+Example C20_ex_init_connects :
+  fork_of 4 [EDisc 2 1; EConn 5 2 false; EConn 6 3 true] = 2 /\
+  conn_hashes [EDisc 2 1; EConn 5 2 false; EConn 6 3 true] = [5; 6].
+Proof. vm_compute. split; reflexivity. Qed.
